@@ -12,10 +12,12 @@ CONSTANTS
   PowBits <- Pow0
   PointModes <- PmQ
   Faults <- FaultsAll
+  Caps <- Cap03
 INVARIANTS
   RollInOnceAtRightHeight
   BitsAccounted
   AritiesBounded
   SameIndexBits
+  CapsAccounted
   Emit
 CHECK_DEADLOCK FALSE
